@@ -49,7 +49,7 @@ type ReadFault struct {
 }
 
 type State struct {
-	kseq uint64 // order-sensitive hash of the operations that changed the kernel's state
+	kseq       uint64 // order-sensitive hash of the operations that changed the kernel's state
 	files      map[*os.File]*fileInfo
 	Fds        []int // every inotify fd created in this execution
 	Calls      []Call
